@@ -134,9 +134,11 @@ class ScanForStart(Stream):
         return pc.shrink_text(case)
 
 
+from line_ends import FileLineEnds  # noqa: E402  (the same tree whatever line terminator the file uses)
+
 SPEC = {
     "clusters": ["Parse", "Tok"],
-    "streams": [Renderings, ScanForStart],
+    "streams": [Renderings, ScanForStart, FileLineEnds],
     "rule": "abstract trees (bounded-exhaustive: all trees of <=2 objects over 2 names, then seeded random to depth 3) x a layout sampler "
             "making every terminator/blank/comment/continuation/nesting-vs-dotted/off-region/'!' choice independently; each rendering and the "
             "plain layout of the same tree are parsed by freephil and by the extracted model; distinct = distinct rendering text; "
